@@ -461,7 +461,7 @@ func c15Records(c *core.Ctx) {
 		for n := 0; n < len(raw); n += step {
 			add(fmt.Sprintf("rec/%d/jtrunc/%d/0", fi, n))
 		}
-		nsub := c.N(25, 1500)
+		nsub := c.N(150, 3000)
 		for k := 0; k < nsub; k++ {
 			add(fmt.Sprintf("rec/%d/jsub/%d/%d", fi, r.IntN(len(raw)), interesting[r.IntN(len(interesting))]))
 		}
@@ -490,8 +490,11 @@ func c15Records(c *core.Ctx) {
 	for n := 0; n < len(idx); n += c.N(37, 3) {
 		add(fmt.Sprintf("idx/jtrunc/%d/0", n))
 	}
-	for k := 0; k < c.N(40, 2000); k++ {
-		add(fmt.Sprintf("idx/jsub/%d/%d", r.IntN(len(idx)), interesting[r.IntN(len(interesting))]))
+	// index.json is small: every position x every interesting byte
+	for pos := 0; pos < len(idx); pos++ {
+		for _, b := range interesting {
+			add(fmt.Sprintf("idx/jsub/%d/%d", pos, b))
+		}
 	}
 	for k := 0; k < 14; k++ {
 		add(fmt.Sprintf("idx/jwhole/%d/0", k))
